@@ -855,6 +855,43 @@ func ruleSettingsApplied(p *Prog, r *Out) {
 			if enc == "" && seen == "" {
 				return true
 			}
+			// an intermediate limit (the lowest size the server went through) may be
+			// given to the encoder alone when the same path goes on to set encoder
+			// and marker to one value: the marker then is the encoder's limit again
+			if enc != "" && seen == "" {
+				pm := p.pmFor(fd)
+				var holder ast.Node = b
+				for holder != nil {
+					if _, isIf := pm[holder].(*ast.IfStmt); isIf {
+						holder = pm[holder]
+						break
+					}
+					holder = pm[holder]
+				}
+				if ifs, ok := holder.(*ast.IfStmt); ok {
+					if outer, ok := pm[ifs].(*ast.BlockStmt); ok {
+						e2, s2 := "", ""
+						for _, s := range outer.List {
+							if s.Pos() <= ifs.Pos() {
+								continue
+							}
+							switch x := s.(type) {
+							case *ast.ExprStmt:
+								if cl, ok := x.X.(*ast.CallExpr); ok && p.calleeOf(cl) == "(*HPACK).SetMaxTableSize" && strings.HasPrefix(p.text(cl.Fun), "c.enc.") {
+									e2 = squash(p.text(cl.Args[0]))
+								}
+							case *ast.AssignStmt:
+								if len(x.Lhs) == 1 && p.isFieldSel(x.Lhs[0], "Conn", "encTableSizeSeen") {
+									s2 = squash(p.text(x.Rhs[0]))
+								}
+							}
+						}
+						if e2 != "" && e2 == s2 {
+							return true
+						}
+					}
+				}
+			}
 			r.check(enc == seen, fn+" moves the encoder and its marker together", p.pos(at.Pos()), "c.enc.SetMaxTableSize(x) and encTableSizeSeen = x in the same block", fmt.Sprintf("%s changes the encoder's table limit (%q) and the write loop's marker (%q) apart: the marker is compared with every newly received HEADER_TABLE_SIZE to decide whether the encoder needs changing, so once it differs from the encoder's real limit a received size is acknowledged and never applied", fn, enc, seen))
 			return true
 		})
